@@ -451,6 +451,38 @@ class CFG:
     def _reaches_without(self, b, n, via):
         return False
 
+    def control_deps(self, n, ignore_loop_conditions=True):
+        """branch nodes n is control dependent on (n post-dominates one successor of b but not b itself)."""
+        out = []
+        for b in self.events(('branch',)):
+            if b is n:
+                continue
+            if ignore_loop_conditions and self._is_loop_condition(b):
+                continue
+            if self.postdominates(n, b):
+                continue
+            if any(self.postdominates(n, s) for s, _ in b.succ):
+                out.append(b)
+        return out
+
+    def _is_loop_condition(self, b):
+        # a branch whose evaluation belongs to a loop header: reached from a loophead through joins/calls only
+        for h in self.events(('loophead',)):
+            body = self.loop_body(h)
+            if b.id in body:
+                # is b on the header's condition chain, i.e. does one of its edges leave the loop?
+                for s, _ in b.succ:
+                    x = s
+                    hops = 0
+                    while x.kind == 'join' and x.succ and hops < 6:
+                        if x.id not in body:
+                            break
+                        x = x.succ[0][0]
+                        hops += 1
+                    if x.id not in body:
+                        return True
+        return False
+
     def in_loop(self, n):
         """loop heads whose natural loop contains n."""
         out = []
